@@ -1,3 +1,4 @@
+mod addr;
 mod common;
 mod kv;
 
@@ -12,6 +13,7 @@ fn run(id: &str, ctx: &Ctx) -> i32 {
     match id {
         "C06" => kv::run_c06(ctx),
         "C07" => kv::run_c07(ctx),
+        "C18" => addr::run_c18(ctx),
         _ => machinery_error(&format!("no check for {}", id)),
     }
 }
@@ -26,6 +28,7 @@ fn replay(path: &str) -> i32 {
     match id.as_str() {
         "C06" => kv::replay_c06(&ctx, case),
         "C07" => kv::replay_c07(&ctx, case),
+        "C18" => addr::replay_c18(&ctx, case),
         _ => machinery_error(&format!("no replay for {}", id)),
     }
     let classes = ctx.violation_classes();
